@@ -10,6 +10,7 @@ mod files;
 mod screen;
 mod border;
 mod snapshot;
+mod vtxrec;
 
 fn main() {
     let mut it = std::env::args().skip(1);
@@ -44,6 +45,7 @@ fn main() {
         "screen" => screen::run(&args),
         "border" => border::run(&args),
         "snapshot" => snapshot::run(&args),
+        "vtx" => vtxrec::run(&args),
         "portsdbg" => ports::debug(),
         _ => {
             eprintln!("unknown sub-command {cmd:?}");
